@@ -7,6 +7,7 @@ import Pycoin.Proofs.DriverC10
 import Pycoin.Props.C11
 import Pycoin.Model.PyErr
 import Pycoin.Model.Wif
+import Pycoin.Model.KeyOps
 import Pycoin.Gen.Curves
 import Pycoin.Gen.Networks
 set_option exponentiation.threshold 4096
@@ -672,5 +673,96 @@ theorem C10_der_minimal (r : Int) (hr : 0 ≤ r) (e : Bytes) (h : encodeInteger 
 #guard sigdecodeDer [0x30, 0x07, 0x02, 0x01, 0x01, 0x02, 0x02, 0x00, 0x80] false matches .ok (1, 128)
 
 end der
+
+
+/-! ## `Key.verify` on raw DER, `Key.sign` on a public key, `override_network`, `keys.public` -/
+section keyops
+open Pycoin.KeyOps Pycoin.KeyCtor Pycoin.Der
+
+/-- C10.key_verify_strict: `Key.verify(h, sig)` answers `True` only when strict DER decoding accepts `sig` — the
+sequence ends the input and the second integer ends the sequence — and the decoded `(r, s)` verifies; input that the
+decoder refuses as malformed (`UnexpectedDER`, `ValueError`) is `False`, never an exception -/
+theorem C10_key_verify_strict (c : Curve.CurveParams) (bf : Int) (Q : Curve.Pt) (h sig : Bytes) :
+    (keyVerify c bf Q h sig = .ok true →
+      ∃ r s content rest, sigdecodeDer sig false = .ok (r, s) ∧ removeSequence sig = .ok (content, []) ∧
+        removeInteger content false = .ok (r, rest) ∧ removeInteger rest false = .ok (s, []) ∧
+        Curve.verify c bf Q (Sec.fromBytes32 h) r s = .ok true) ∧
+    (∀ e, sigdecodeDer sig false = .error e → e = .unexpectedDER ∨ e = .valueError →
+      keyVerify c bf Q h sig = .ok false) := by
+  constructor
+  · intro hv
+    unfold keyVerify at hv
+    split at hv
+    · cases hv
+    · cases hv
+    · cases hv
+    · rename_i r s hd
+      obtain ⟨content, rest, h1, h2, h3⟩ := C10_der_strict_trailing sig r s hd
+      refine ⟨r, s, content, rest, hd, h1, h2, h3, ?_⟩
+      split at hv
+      · rename_i b hb; cases hv; exact hb
+      · split at hv <;> cases hv
+  · intro e he hcase
+    unfold keyVerify
+    rw [he]
+    rcases hcase with rfl | rfl <;> rfl
+
+/-- C10.key_sign_needs_secret: only a key holding a secret exponent gets past the guard of `Key.sign` -/
+theorem C10_key_sign_needs_secret (k : Key) : keySignGuard k = .ok () ↔ k.se ≠ none := by
+  unfold keySignGuard
+  cases k.se <;> simp
+
+/-- C10.override_network: the key rebuilt on the other network holds the same secret exponent (hence the same
+public pair, by `C10_key_ctor_sound`); as coded it is always marked compressed; a public key is refused -/
+theorem C10_override_network (c : Curve.CurveParams) (mul : Int → Except Curve.Err Curve.Pt) (k k' : Key)
+    (h : overrideNetwork c mul k = .ok k') :
+    ∃ d, k.se = some d ∧ d ≠ 0 ∧ keyFromSecretWith c mul d true = .ok k' := by
+  unfold overrideNetwork at h
+  split at h
+  · rename_i d hd
+    split at h
+    · rename_i hne
+      split at h
+      · rename_i k'' hk; cases h; exact ⟨d, hd, hne, hk⟩
+      · cases h
+    · cases h
+  · cases h
+
+/-- C10.keys_public_flag: SEC bytes decide the compression flag themselves: passing one is refused; a public pair
+takes the flag given (compressed by default) -/
+theorem C10_keys_public_flag (c : Curve.CurveParams) (b : Bytes) (f : Bool) (P : Curve.Pt) (fl : Option Bool) (k : Key) :
+    keysPublic c (.sec b) (some f) = .error .valueError ∧
+    (keysPublic c (.sec b) none = .ok k ↔ keyFromSec c b = .ok k) ∧
+    (keysPublic c (.pair P) fl = .ok k ↔ keyFromPair c P (fl.getD true) = .ok k) := by
+  refine ⟨rfl, ?_, ?_⟩
+  · unfold keysPublic
+    cases hk : keyFromSec c b <;> simp [hk]
+  · unfold keysPublic
+    cases hk : keyFromPair c P (fl.getD true) <;> simp [hk]
+
+/-- C10.is_sec: the shape test holds of every blob `Key.from_sec` accepts (32-byte fields), and of nothing with another
+length or prefix -/
+theorem C10_is_sec (c : Curve.CurveParams) (hc : Sec.Field32 c) (blob : Bytes) :
+    (∀ k, keyFromSec c blob = .ok k → isSec blob = true) ∧
+    (isSec blob = true ↔
+      (blob.length = 33 ∧ (blob.take 1 = [2] ∨ blob.take 1 = [3])) ∨ (blob.length = 65 ∧ blob.take 1 = [4])) := by
+  have hiff : isSec blob = true ↔
+      (blob.length = 33 ∧ (blob.take 1 = [2] ∨ blob.take 1 = [3])) ∨ (blob.length = 65 ∧ blob.take 1 = [4]) := by
+    unfold isSec
+    by_cases h1 : (blob.take 1 = [2] ∨ blob.take 1 = [3]) ∧ blob.length = 33
+    · rw [if_pos h1]
+      exact ⟨fun _ => Or.inl ⟨h1.2, h1.1⟩, fun _ => rfl⟩
+    · rw [if_neg h1]
+      simp only [decide_eq_true_eq]
+      constructor
+      · intro h; exact Or.inr ⟨h.2, h.1⟩
+      · rintro (h | h)
+        · exact absurd ⟨h.2, h.1⟩ h1
+        · exact ⟨h.2, h.1⟩
+  refine ⟨?_, hiff⟩
+  intro k hk
+  exact hiff.mpr (C10_sec_strict c hc blob k hk).2.2.2.2.2.2.2.2
+
+end keyops
 
 end Pycoin.C10
